@@ -169,7 +169,8 @@ func encryptSM2EC(c *sm2Curve, pub *ecdsa.PublicKey, random io.Reader, msg []byt
 		if err != nil {
 			return nil, err
 		}
-		C2, err := Q.ScalarMult(Q, k.Bytes(c.N))
+		// do not use Q as the receiver: Q must still be the public key if A5 sends us round the loop again
+		C2, err := c.newPoint().ScalarMult(Q, k.Bytes(c.N))
 		if err != nil {
 			return nil, err
 		}
